@@ -61,6 +61,7 @@ NAMES = {
     "\ufffdX": [["s", "\ufffdx"], ["s", "\ufffdX"], ["braw", "ff78"], ["braw", "ff58"]],
 }
 NAME_LIST = list(NAMES)
+BYTES_SPECS = [s for specs in NAMES.values() for s in specs if s[0] != "s"]
 SPECIAL = {"STRASSE", "ID", "Ǆ"}
 
 
@@ -122,7 +123,7 @@ OPS = [
     ("pop", 5), ("pop_default", 3), ("popitem", 2), ("setdefault", 4), ("setdefault_none", 2),
     ("update", 6), ("update_failing", 3), ("copy", 3), ("or", 2), ("ror", 2), ("ior", 2),
     ("fromkeys", 1), ("clear", 1), ("len", 2), ("listing", 3), ("eq", 4), ("sorted", 4), ("has_key", 2),
-    ("iter", 1),
+    ("iter", 1), ("noise_decode", 2),
 ]
 
 
@@ -133,6 +134,9 @@ def generate(rng, cfg):
     items = _pairs(rng, 100, strs_only=how in ("kwargs",))
     kw = _pairs(rng, 200, n=rng.randint(1, 2), strs_only=True) if how == "mapping+kwargs" else []
     trace = [[0, "new", {"cls": cls, "how": how, "items": items, "kw": kw}]]
+    if rng.random() < 0.3:
+        # another client of the process has decoded the same bytes as *values* before (other codecs than key folding)
+        trace[0][2]["prime"] = [rng.choice(BYTES_SPECS) for _ in range(rng.randint(1, 3))]
     if how == "empty":
         items = []
     trace[0][2]["items"] = items
@@ -176,6 +180,8 @@ def generate(rng, cfg):
             a["keys"] = [p[0] for p in _pairs(rng, 0)]
             a["v"] = val
             a["adopt"] = rng.random() < 0.3
+        elif op == "noise_decode":
+            a["specs"] = [rng.choice(BYTES_SPECS) for _ in range(rng.randint(1, 2))]
         elif op == "eq":
             a["other"] = rng.choice(["upper_dict", "same_anycase", "same_anycase", "differs", "other_class", "renamed"])
             a["spell"] = rng.randrange(1 << 30)
@@ -276,7 +282,8 @@ def _model_step(model, step, out):
     if op == "get_default":
         return ("ok", model.get(norm(a["k"]), a["v"]))
     if op == "pop":
-        return ("ok", model.pop(norm(a["k"]), None))
+        K = norm(a["k"])       # as a dictionary: no default, no key -> KeyError
+        return ("ok", model.pop(K)) if K in model else ("exc", "KeyError")
     if op == "pop_default":
         return ("ok", model.pop(norm(a["k"]), a["v"]))
     if op == "popitem":
@@ -359,6 +366,7 @@ def execute(run, res):
         _, op, a = step
         res.steps += 1
         if op == "new":
+            _noise_decode(res, a.get("prime", []))
             clsname = a["cls"]
             cls = _cls(clsname)
             how = "empty" if not a["items"] and a["how"] in ("mapping", "pairs", "kwargs", "ordered") else a["how"]
@@ -377,6 +385,10 @@ def execute(run, res):
             res.skipped += 1
             continue
         res.ops[op] += 1
+        if op == "noise_decode":
+            _noise_decode(res, a["specs"])
+            _invariants(res, stepno, op, d, model, cls, clsname)
+            continue
         if "k" in a:
             kc = key_class(a["k"])
             K = norm(a["k"])
@@ -473,7 +485,10 @@ def execute(run, res):
             got = ("exc", type(e).__name__)
         if op == "popitem" and got[0] == "ok":
             got = ("ok", list(got[1]))
-        if got != want:
+        if op == "pop" and want == ("exc", "KeyError") and got == ("ok", None):
+            # listed deviation: pop(key) of a missing key returns None where a dictionary raises KeyError
+            res.violate("C17/pop/missing-key-returns-none", stepno, f"got {got!r} want {want!r} key={a.get('k')!r}")
+        elif got != want:
             res.violate(f"C17/{op}/result", stepno, f"got {got!r} want {want!r} key={a.get('k')!r}")
         if want[0] == "exc":
             if op == "update_failing":
@@ -482,6 +497,23 @@ def execute(run, res):
                 res.probe("failed_op_atomic")
         res.observe(stepno, op, describe(list(got)))
         _invariants(res, stepno, op, d, model, cls, clsname)
+
+
+def _noise_decode(res, specs):
+    """Work of another client in the same process: the bytes that serve as keys here are values there, decoded
+    with the codecs of the value types (utf-8, a caller-chosen one) - not with the key folding's utf-8-sig."""
+    import icalendar.prop as P
+    from icalendar.parser_tools import to_unicode
+    for spec in specs:
+        b = key_py(spec)
+        for fn in (lambda: P.vText(b), lambda: P.vText(b, encoding="latin-1"), lambda: P.vCalAddress(b),
+                   lambda: to_unicode(b, "latin-1"), lambda: P.vUri(b)):
+            try:
+                fn()
+            except ValueError:
+                pass
+    if specs:
+        res.probe("key_bytes_decoded_as_values_before")
 
 
 def _literal_step(step):
@@ -568,11 +600,15 @@ def _check_eq(res, stepno, d, model, cls, clsname, a):
     g = random.Random(a["spell"])
     is_comp = clsname not in ("CaselessDict", "Parameters")
     kind = a["other"]
-    if kind == "upper_dict" and is_comp:
-        kind = "same_anycase"
     if kind == "other_class" and is_comp:
-        kind = "same_anycase"
-    if kind == "other_class":
+        # a component (without subcomponents) and a plain caseless map with the same content
+        from icalendar.caselessdict import CaselessDict
+        other = CaselessDict([(key_py(g.choice(NAMES.get(K, [["s", K]]))), v) for K, v in model.items()])
+        want = True
+        kind = "component-vs-map"
+    if kind == "component-vs-map":
+        pass
+    elif kind == "other_class":
         # another caseless mapping class with the same upper-cased content (Parameters vs CaselessDict)
         from icalendar.caselessdict import CaselessDict
         from icalendar.parser import Parameters
